@@ -66,6 +66,9 @@ type storeHist struct {
 	opts     mon.CheckOpts
 	nameN    int
 	opKinds  map[string]bool
+	// soak mode: oracles evaluated at checkpoints only
+	checkEvery int
+	stepN      int
 }
 
 func (h *storeHist) name() string {
@@ -167,6 +170,9 @@ func (h *storeHist) smallArg() *mon.MonStore {
 }
 
 func (h *storeHist) check(s *mon.MonStore) {
+	if h.checkEvery > 1 && h.stepN%h.checkEvery != 0 {
+		return
+	}
 	if h.checked(s.Spec) {
 		o := h.opts
 		if sp := s.M.Span(); sp > 20000 {
@@ -181,6 +187,21 @@ func (h *storeHist) check(s *mon.MonStore) {
 
 // step performs one random operation on the main store.
 func (h *storeHist) step() {
+	h.stepN++
+	if len(h.pool) > 40 {
+		// soak runs: keep the pool of live stores bounded
+		keep := h.pool[len(h.pool)-20:]
+		found := false
+		for _, p := range keep {
+			if p == h.main {
+				found = true
+			}
+		}
+		if !found {
+			keep = append(keep, h.main)
+		}
+		h.pool = append([]*mon.MonStore{}, keep...)
+	}
 	r, s := h.r, h.main
 	op := r.Pick(30, 18, 6, 10, 5, 4, 6, 6, 3, 2, 4)
 	switch op {
@@ -385,8 +406,22 @@ func runStoreHistory(c *core.Ctx, mainSpec gen.StoreSpec, argSpecs func(r *rng.R
 		n = r.Range(100, 400)
 		h.opts.MaxRanks = 6
 	}
+	if c.Tier == "thorough" && c.Index%2000 == 7 {
+		// soak: a long history with the oracles evaluated at checkpoints and at the end
+		n = r.Range(20000, 100000)
+		h.checkEvery = 499
+		h.opts.MaxRanks = 6
+		c.Count("soak.histories", 1)
+		c.Count("soak.operations", n)
+	}
 	for i := 0; i < n && !c.Failed(); i++ {
 		h.step()
+	}
+	if h.checkEvery > 1 && !c.Failed() {
+		h.checkEvery = 1
+		for _, p := range h.pool {
+			h.check(p)
+		}
 	}
 	c.SigI(n)
 	c.Sig(r.U64())
